@@ -147,6 +147,10 @@ type ReplayFile struct {
 	TraceHash string            `json:"trace_hash"`
 	Faults    map[string]int    `json:"faults"`
 	Trace     []string          `json:"trace"`
+	// ProcessAbort: the run ended in an unrecoverable runtime abort (out of
+	// memory, stack overflow, panic on a goroutine of the system); written by
+	// bin/check from the worker's log, replayed from RunSeed
+	ProcessAbort bool `json:"process_abort,omitempty"`
 }
 
 func WriteReplay(path string, rf *ReplayFile) error {
